@@ -454,8 +454,13 @@ func genHttpConv(r *Rand, tier string, emit func(sx.Sx)) {
 		emit(sx.L(first, sx.L(sx.A("ex"), req, resp)))
 	}
 	// an upgrade the server declines with an ordinary final response: the connection stays on HTTP/1.1 and goes on
-	for _, st := range []int{403, 426, 200} {
+	for _, st := range []int{403, 426, 200, 404, 501} {
 		hs := sx.L(sx.L(sx.S("Host"), sx.S("host.example")), sx.L(sx.S("Connection"), sx.S("Upgrade")), sx.L(sx.S("Upgrade"), sx.S("websocket")))
+		if st == 404 || st == 501 {
+			// curl --http2 against a server that speaks HTTP/1.1 only: the h2c upgrade is ignored and the connection goes on
+			hs = sx.L(sx.L(sx.S("Host"), sx.S("host.example")), sx.L(sx.S("Connection"), sx.S("Upgrade, HTTP2-Settings")), sx.L(sx.S("Upgrade"), sx.S("h2c")),
+				sx.L(sx.S("HTTP2-Settings"), sx.S("AAMAAABkAAQCAAAAAAIAAAAA")))
+		}
 		req := sx.L(sx.A("req"), sx.S("GET"), sx.S("/chat"), sx.N(1), hs, sx.A("none"), sx.B(nil))
 		resp := sx.L(sx.A("resp"), sx.N(st), sx.S("Declined"), sx.N(1), sx.L(), sx.A("cl"), sx.B([]byte("no")))
 		mk := func(path string, status int) sx.Sx {
